@@ -276,6 +276,43 @@ pub fn run(run: &mut Run) {
         }
         let _ = n_ins;
     }
+    // the location of the source is not part of the program: whatever characters the path of the main file contains,
+    // a program that compiles must still yield loadable Lua (run-time messages may quote the location)
+    {
+        let body = "print: fn *X -> void : external\nuse helper\nf :: fn x: int -> int\n    if x > 100 do\n        <!>\n    end\n    x <=> x\n    x\nend\nstart :: fn do\n    print(f(1) + helper.g(2))\nend\n";
+        let helper = "g :: fn x: int -> int\n    if x > 100 do\n        <!>\n    end\n    x\nend\n";
+        let mut acc = Stats::new();
+        for dir in ["/p", "/p/the \"final\" version", "/p/old\\stuff", "/p/it's", "/p/ünï cödé", "/p/a\\nb", "/p/100%d", "/p/[[x]]", "/p/--x", "/p/tab\there", "/p/a\\", "/p/]]"] {
+            let main = format!("{}/main.sy", dir);
+            let mut files = Files::new();
+            files.insert(main.clone(), body.to_string());
+            files.insert(format!("{}/helper.sy", dir), helper.to_string());
+            acc.evaluations += 1;
+            match compile(&files, &main, true) {
+                Outcome::Ok(lua) => {
+                    acc.programs += 1;
+                    acc.nontrivial(fnv(main.as_bytes()));
+                    match loads(&lua) {
+                        Ok(_) => acc.outcome("loads"),
+                        Err(e) => {
+                            let sig = load_sig(&e);
+                            acc.outcome(&sig);
+                            let mut fm = serde_json::Map::new();
+                            for (k, v) in &files {
+                                fm.insert(k.clone(), json!(v));
+                            }
+                            acc.fail(Failure { sig, preds: vec!["source-path-with-special-characters".into()], detail: format!("{:?}\nmain file: {}", e, main), case: json!({"engine": "c06", "family": "source-path", "files": fm, "main": main, "no_std": true}), size: main.len() });
+                        }
+                    }
+                }
+                other => {
+                    acc.count("rejected-by-compiler(source-path)", 1);
+                    let _ = other;
+                }
+            }
+        }
+        st.merge(acc);
+    }
     let stop = AtomicBool::new(false);
     let _ = &stop;
     let accs = crate::pool::par_items(&cases, 8, |_| Stats::new(), |acc, i, (fam, text, no_std, want, preds)| {
@@ -288,7 +325,7 @@ pub fn run(run: &mut Run) {
     st.merge(Stats::merge_all(accs));
     run.stats = st;
     run.bounds = json!({"families": bounds, "field_names": FIELD_NAMES, "string_alphabet": STR_ALPHABET, "max_string_len": maxlen, "numeric_literals": NUM_LITERALS, "unused_expressions": UNUSED_EXPRS.len(), "sizes": sizes});
-    run.rule = format!("the Lua loader on the output of every successful compile of (a) {} and (b) lexical families: blob field names (Lua keywords and library names), every string literal content up to the length bound over a 23-character alphabet (backslash, quote-like characters, brackets, tab, LF, CR, ESC, NUL, DEL, digits, non-ASCII), numeric literal forms, every expression kind as an unused statement at first/middle/last position, bodies and files of n statements for the listed n with and without std; every short family program with one exit statement (ret, ret 0, break, continue, <!>, do-blocks ending in ret) inserted at every position of every block; non-trivial = compiled; distinct by text", crate::engines::c01::FAMILY_RULE);
+    run.rule = format!("the Lua loader on the output of every successful compile of (a) {} and (b) lexical families: blob field names (Lua keywords and library names), every string literal content up to the length bound over a 23-character alphabet (backslash, quote-like characters, brackets, tab, LF, CR, ESC, NUL, DEL, digits, non-ASCII), numeric literal forms, every expression kind as an unused statement at first/middle/last position, bodies and files of n statements for the listed n with and without std; every short family program with one exit statement (ret, ret 0, break, continue, <!>, do-blocks ending in ret) inserted at every position of every block; a two-file program with `<!>` and `<=>` compiled from 12 directories whose names contain quotes, backslashes, brackets, `%`, `--`, tabs and non-ASCII text; non-trivial = compiled; distinct by text", crate::engines::c01::FAMILY_RULE);
     run.assumptions = vec![
         "the loader is MiniLua's (full Lua 5.3 grammar, goto/label rules, 200 active locals, 255 upvalues, 200 nesting levels); register allocation limits are not modelled".into(),
         "programs the compiler rejects are not in the domain of the property and are only counted".into(),
@@ -296,6 +333,19 @@ pub fn run(run: &mut Run) {
 }
 
 pub fn replay(case: &serde_json::Value) -> Option<(String, String)> {
+    if let Some(main) = case["main"].as_str() {
+        let mut files = Files::new();
+        for (k, v) in case["files"].as_object()? {
+            files.insert(k.clone(), v.as_str()?.to_string());
+        }
+        return match compile(&files, main, true) {
+            Outcome::Ok(lua) => match loads(&lua) {
+                Ok(_) => None,
+                Err(e) => Some((load_sig(&e), format!("{:?}", e))),
+            },
+            _ => None,
+        };
+    }
     let text = case["files"][MAIN].as_str()?;
     let no_std = case["no_std"].as_bool().unwrap_or(true);
     match compile(&one_file(text), MAIN, no_std) {
